@@ -54,7 +54,18 @@ func conditioningMethodReturn(
 	for _, defineArgT := range defineArgTs {
 		if defineArgT.HasDefault() {
 			variants := methodT.GetVariants()
-			return &variants[len(removeBlockTypeArgs(evaluatedArgs))]
+
+			// more arguments than return variants (the arity error is reported elsewhere)
+			idx := len(removeBlockTypeArgs(evaluatedArgs))
+			if idx >= len(variants) {
+				idx = len(variants) - 1
+			}
+
+			if idx < 0 {
+				return methodT
+			}
+
+			return &variants[idx]
 		}
 
 		if defineArgT.IsUnionType() {
